@@ -16,6 +16,12 @@ package main
 //	                  for Cancel / end of stream
 //
 // Ping is always answered with Pong.
+//
+// Dials.  A dial made on behalf of the harness (New, Acquire, Pool.Do: the context carries c11FgKey) follows the
+// script at once: the next entry of plan (New's createIdleResources), else failNext.  Every other dial comes
+// from a goroutine the pool started itself (checkMinConns -> puddle CreateResource); when the environment is
+// gated such a dial waits at the gate until the harness lets it return with a verdict, so that other operations
+// (Close included) can run while a creation is in flight.  A connection gets its id when its dial returns.
 
 import (
 	"context"
@@ -32,13 +38,29 @@ import (
 	"github.com/ClickHouse/ch-go/proto"
 )
 
+type c11FgKey struct{}
+
+// c11Fg marks a context as belonging to an operation of the harness.
+func c11Fg(ctx context.Context) context.Context { return context.WithValue(ctx, c11FgKey{}, true) }
+
+type c11Pending struct {
+	arrived time.Time
+	verdict chan bool
+	done    chan struct{} // closed when the dial has returned
+}
+
 type c11Env struct {
 	mu       sync.Mutex
-	conns    []*c11Conn // by id, in dial order
+	conns    []*c11Conn // by id, in the order the dials returned
 	failNext int        // number of coming dials that fail
-	maxOpen  int        // configured MaxConns (0 = not judged at dial time)
-	viol     []string   // property violations noticed on the server / dialer side
-	cancels  sync.Map   // token -> context.CancelFunc
+	plan     []bool     // outcomes of the coming foreground dials (New), consumed first
+	planUsed []bool     // the part of plan that was consumed
+	gated    bool       // background dials wait at the gate
+	pending  []*c11Pending
+	bgDials  atomic.Int64 // background dials seen (gated or not)
+	maxOpen  int          // configured MaxConns (0 = not judged at dial time)
+	viol     []string     // property violations noticed on the server / dialer side
+	cancels  sync.Map     // token -> context.CancelFunc
 	delay    time.Duration
 	requests atomic.Int64
 }
@@ -48,6 +70,7 @@ type c11Conn struct {
 	id       int
 	env      *c11Env
 	dialedAt time.Time
+	bg       bool // dialed by a goroutine of checkMinConns
 	closed   atomic.Bool
 	byPool   atomic.Bool // the first Close came from puddle's destructor
 	everHeld atomic.Bool // a holder had it before (concurrent family)
@@ -98,14 +121,44 @@ func (e *c11Env) violations() []string {
 
 // DialContext implements ch.Dialer.
 func (e *c11Env) DialContext(ctx context.Context, network, address string) (net.Conn, error) {
+	fg := ctx.Value(c11FgKey{}) != nil
+	at := time.Now()
+	if !fg {
+		e.bgDials.Add(1)
+		e.mu.Lock()
+		if e.gated {
+			w := &c11Pending{arrived: at, verdict: make(chan bool, 1), done: make(chan struct{})}
+			e.pending = append(e.pending, w)
+			e.mu.Unlock()
+			defer close(w.done)
+			select {
+			case ok := <-w.verdict:
+				if !ok {
+					return nil, errors.New("c11: scripted dial failure (background)")
+				}
+			case <-ctx.Done():
+				return nil, ctx.Err()
+			}
+		} else {
+			e.mu.Unlock()
+		}
+	}
 	e.mu.Lock()
-	if e.failNext > 0 {
+	if fg && len(e.plan) > 0 {
+		ok := e.plan[0]
+		e.plan = e.plan[1:]
+		e.planUsed = append(e.planUsed, ok)
+		if !ok {
+			e.mu.Unlock()
+			return nil, errors.New("c11: scripted dial failure (New)")
+		}
+	} else if fg && e.failNext > 0 {
 		e.failNext--
 		e.mu.Unlock()
 		return nil, errors.New("c11: scripted dial failure")
 	}
 	cli, srv := net.Pipe()
-	c := &c11Conn{Conn: cli, id: len(e.conns), env: e, dialedAt: time.Now(), srvDone: make(chan struct{})}
+	c := &c11Conn{Conn: cli, id: len(e.conns), env: e, dialedAt: at, bg: !fg, srvDone: make(chan struct{})}
 	e.conns = append(e.conns, c)
 	open := 0
 	for _, x := range e.conns {
@@ -119,6 +172,28 @@ func (e *c11Env) DialContext(ctx context.Context, network, address string) (net.
 	}
 	go e.serve(c, srv)
 	return c, nil
+}
+
+// pendingCount: background dials waiting at the gate.
+func (e *c11Env) pendingCount() int {
+	e.mu.Lock()
+	defer e.mu.Unlock()
+	return len(e.pending)
+}
+
+// letGo lets the oldest dial at the gate return and waits until it has; false when none waits.
+func (e *c11Env) letGo(ok bool) (*c11Pending, bool) {
+	e.mu.Lock()
+	if len(e.pending) == 0 {
+		e.mu.Unlock()
+		return nil, false
+	}
+	w := e.pending[0]
+	e.pending = e.pending[1:]
+	e.mu.Unlock()
+	w.verdict <- ok
+	<-w.done
+	return w, true
 }
 
 func (e *c11Env) snapshot() []*c11Conn {
